@@ -269,17 +269,16 @@ class Module(AuxDataContainer):
         m.sections.update(
             Section._from_protobuf(s, ir) for s in proto_module.sections
         )
-        # entry point is a code block, which depends on sections
+        # entry point is a code block, which depends on sections; it may
+        # also belong to a module that is decoded later, in which case the
+        # IR resolves it once every module has been decoded
         m.entry_point = None
         if proto_module.entry_point:
             entry_point_uuid = UUID(bytes=proto_module.entry_point)
-            entry_point = ir.get_by_uuid(entry_point_uuid)
-            if not isinstance(entry_point, CodeBlock):
-                raise DeserializationError(
-                    "Module: entry block UUID %s is not a CodeBlock"
-                    % entry_point_uuid
-                )
-            m.entry_point = entry_point
+            if ir.get_by_uuid(entry_point_uuid) is None:
+                m._pending_entry_point = entry_point_uuid
+            else:
+                m._resolve_entry_point(ir, entry_point_uuid)
         # symbols depend on blocks
         m.symbols.update(
             Symbol._from_protobuf(s, ir) for s in proto_module.symbols
@@ -294,6 +293,25 @@ class Module(AuxDataContainer):
         )
 
         return m
+
+    def _resolve_entry_point(
+        self, ir: "IR", entry_point_uuid: typing.Optional[UUID] = None
+    ) -> None:
+        """Set the entry point read from a Protobuf module, if one is
+        given or was left pending by :meth:`_decode_protobuf`.
+        """
+
+        if entry_point_uuid is None:
+            entry_point_uuid = self.__dict__.pop("_pending_entry_point", None)
+            if entry_point_uuid is None:
+                return
+        entry_point = ir.get_by_uuid(entry_point_uuid)
+        if not isinstance(entry_point, CodeBlock):
+            raise DeserializationError(
+                "Module: entry block UUID %s is not a CodeBlock"
+                % entry_point_uuid
+            )
+        self.entry_point = entry_point
 
     def _to_protobuf(self) -> Module_pb2.Module:
         proto_module = Module_pb2.Module()
